@@ -60,6 +60,7 @@ type faultCase struct {
 	// a fresh prompt), the reader takes it, the connection is lost while idle, and NextOp
 	// (cmd | getprompt) follows: it must fail although a complete prompt sits in the queue
 	Interim     bool   `json:"interim,omitempty"` // cmd only: the operation carries an interim prompt pattern
+	Exact       bool   `json:"exact,omitempty"`   // cmd only: exact (not fuzzy) matching of the input echo
 	Idle        bool   `json:"idle,omitempty"`
 	Unsolicited string `json:"unsolicited,omitempty"`
 	NextOp      string `json:"next_op,omitempty"`
@@ -100,6 +101,9 @@ func genFault(prop string, r *sim.Rng, i int) *faultCase {
 	}
 	if c.Op == "cmd" && r.Chance(1, 3) {
 		c.Interim = true
+	}
+	if c.Op == "cmd" && r.Chance(1, 3) {
+		c.Exact = true
 	}
 	c.Cmd = fmt.Sprintf("show q%d", r.Intn(90)+10)
 	c.Next = fmt.Sprintf("display z%d", r.Intn(9))
@@ -299,6 +303,10 @@ func execFault(c *faultCase, fault bool, k int) *faultRun {
 		if c.Interim {
 			oo = append(oo, opoptions.WithInterimPromptPattern([]*regexp.Regexp{regexp.MustCompile(rx["password_pattern"])}))
 			interim = "password_pattern"
+		}
+		if c.Exact {
+			oo = append(oo, opoptions.WithExactMatchInput())
+			flags = "x"
 		}
 		sendCmd = func(cmd string) (string, error) {
 			r, e := d.SendCommand(cmd, oo...)
